@@ -299,7 +299,7 @@ def schema(rng, depth=3, width=3, keys=SAFE_KEYS, kinds="nbis", p_section=0.45):
     return out
 
 
-def instance(rng, sch, p_keep=0.6, kinds=None, same_kind=0.7):
+def instance(rng, sch, p_keep=0.6, kinds=None, same_kind=0.92):
     """a random sub-tree of the schema with concrete leaf values"""
     out = {}
     for k, v in sch.items():
@@ -325,11 +325,28 @@ def schema_paths(sch, pre=()):
             yield from schema_paths(v, pre + (k,))
 
 
-def env_for(rng, sch, p_set=0.4, prefix="INVOKE_"):
+def sch_kind(sch, p):
+    for k in p:
+        sch = sch[k]
+    return sch
+
+
+def env_for(rng, sch, p_set=0.4, prefix="INVOKE_", p_bad=0.03):
+    """environment naming settings of the schema; values mostly convertible for
+    the schema's leaf kind (conversion failures are C16's subject)"""
     env = {}
     for p, sec in schema_paths(sch):
         if not sec and rng.random() < p_set:
-            env[prefix + "_".join(p).upper()] = rng.choice(ENV_VALUES)
+            kind = sch_kind(sch, p)
+            if rng.random() < p_bad:
+                val = rng.choice(ENV_VALUES)
+            elif kind == "i":
+                val = rng.choice(["0", "1", "5", "-3", "007"])
+            elif kind in "lt":
+                continue
+            else:
+                val = rng.choice(ENV_VALUES)
+            env[prefix + "_".join(p).upper()] = val
     for _ in range(rng.randint(0, 2)):
         env[prefix + rng.choice(["ZZZ", "A_Q", "NOPE"])] = rng.choice(ENV_VALUES)
     return env
